@@ -1629,15 +1629,21 @@ class HasRounds(GenericHandler):
         else:
             if isinstance(max_desired_rounds, str):
                 max_desired_rounds = int(max_desired_rounds)
+            # NOTE: the value given is checked against the hard limits first --
+            #       lifting it to an inherited minimum (below) must not hide that it is out of range.
+            norm_max_rounds = subcls._norm_rounds(
+                max_desired_rounds, param="max_desired_rounds", relaxed=relaxed
+            )
             if min_desired_rounds and max_desired_rounds < min_desired_rounds:
                 msg = f"{subcls.name}: max_desired_rounds ({max_desired_rounds!r}) below min_desired_rounds ({min_desired_rounds!r})"
                 if explicit_min_rounds:
                     raise ValueError(msg)
                 warn(msg, PasslibConfigWarning)
                 max_desired_rounds = min_desired_rounds
-            subcls.max_desired_rounds = subcls._norm_rounds(
-                max_desired_rounds, param="max_desired_rounds", relaxed=relaxed
-            )
+                norm_max_rounds = subcls._norm_rounds(
+                    max_desired_rounds, param="max_desired_rounds", relaxed=relaxed
+                )
+            subcls.max_desired_rounds = norm_max_rounds
 
         # replace default_rounds
         if default_rounds is not None:
